@@ -33,6 +33,7 @@ func init() {
 			{ID: "C13-R9", Title: "mount lookup compares cleaned paths", Floor: 1, Run: mountPathCleaned},
 			{ID: "C13-R10", Title: "a VirtualOS owns its mount table", Floor: 1, Run: virtualOSOwnsItsMaps},
 			{ID: "C13-R11", Title: "no direct host file access in the mediated modules (shared with C12-R1)", Floor: 5, Run: c12r1},
+			{ID: "C13-R12", Title: "the virtual working directory stays absolute and clean", Floor: 1, Run: virtualCwdStaysAbsolute},
 		},
 	})
 }
@@ -281,21 +282,6 @@ func c13r2(c *core.Ctx) {
 					for _, o := range core.Origins(arg) {
 						lc, idx := core.CallOfExtract(o)
 						if lc == nil || idx != 1 || !isLookup(lc.Call.StaticCallee()) {
-							if m.Name() == "MkdirTemp" {
-								// temp names are generated, not caller supplied: must not depend on any string parameter
-								dep := false
-								for _, pa := range sf.Params[1:] {
-									if pa.Name() == "pattern" {
-										continue // a file-name pattern, joined as the last component
-									}
-									if core.DependsOn(o, func(v ssa.Value) bool { return v == ssa.Value(pa) }) {
-										dep = true
-									}
-								}
-								if !dep {
-									continue
-								}
-							}
 							bad = append(bad, "may be "+o.String()+", not the relative path returned by a mount lookup")
 							continue
 						}
